@@ -3,6 +3,7 @@ package sx
 import (
 	"go/types"
 	"math/big"
+	"strings"
 
 	"golang.org/x/tools/go/ssa"
 )
@@ -18,6 +19,7 @@ type ctxV struct {
 	cause    value
 	children []*ctxV
 	deadline bool
+	at       *Term // the deadline instant (ns) when created by WithTimeout / WithDeadline
 }
 
 func (e *Engine) ctxType() types.Type {
@@ -108,6 +110,20 @@ func (c *ctxV) callMethod(e *Engine, name string, args []value) value {
 		}
 		return iface{}
 	case "Deadline":
+		// the nearest deadline on the chain (each node stores min(own, inherited) at creation)
+		for p := c; p != nil; {
+			if p.at != nil {
+				return tuple{p.at, True}
+			}
+			pp, ok := p.parent.v.(*ctxV)
+			if !ok {
+				if p.parent.t != nil {
+					return e.callMethod(p.parent, "Deadline")
+				}
+				break
+			}
+			p = pp
+		}
 		return tuple{BigC(zeroTimeNS), False}
 	}
 	unsup("context method %s", name)
@@ -183,8 +199,24 @@ func (e *Engine) contextIntrinsic(name string, fn *ssa.Function) (handler, bool)
 			return tuple{e.ctxIface(ch), cancel}
 		}, true
 	case "context.WithTimeout", "context.WithDeadline", "context.WithTimeoutCause", "context.WithDeadlineCause":
+		isTimeout := strings.Contains(name, "WithTimeout")
 		return func(c *frame, f *ssa.Function, a []value) value {
 			ch, cancel := e.newCancelCtx(a[0], true)
+			if t, ok := a[1].(*Term); ok {
+				at := t
+				if isTimeout {
+					at = AddX(e.timeNow(), t)
+				}
+				// an earlier inherited deadline wins
+				if inh, ok := e.callMethod(a[0].(iface), "Deadline").(tuple); ok {
+					if has, _ := inh[1].(*Term); has != nil && has.K && has.B {
+						if pd, ok := inh[0].(*Term); ok {
+							at = Ite(Lt(pd, at), pd, at)
+						}
+					}
+				}
+				ch.at = at
+			}
 			return tuple{e.ctxIface(ch), cancel}
 		}, true
 	case "context.WithoutCancel":
